@@ -78,7 +78,7 @@ func vStartObsServer(max uint32) *vObsServer {
 // two DATA frames, optionally padded: the handler runs once and sees exactly
 // the request it sees when the block arrives in one frame.
 //
-//verif:harness prop=C01 unwind=200 timeout=600
+//verif:harness prop=C01,C20 unwind=200 timeout=600
 func VerifH_C01_split() {
 	blk := vRichBlock('1')
 	if vBool() {
